@@ -539,6 +539,25 @@ func init() {
 		return TupleV{a[0], FuncV{intr: "noop"}}
 	})
 	boundIntrinsics["noop"] = func(p *Path, recv Value, a []Value) Value { return nil }
+	// verif_CancelCtx: a context whose cancellation IS observable (Done is a real channel closed by
+	// cancel; Err is non-nil afterwards) - for harnesses whose subject is the reaction to cancellation
+	reg("verif_CancelCtx", func(p *Path, fn *ssa.Function, a []Value) Value {
+		ch := p.newChan(0, types.NewStruct(nil, nil))
+		ctx := IfaceV{t: opaqueType, v: OpaqueV{kind: "cancelctx", data: ch}}
+		return TupleV{ctx, FuncV{intr: "cancelctx", recv: ChanV{ch: ch}}}
+	})
+	boundIntrinsics["cancelctx"] = func(p *Path, recv Value, a []Value) Value {
+		recv.(ChanV).ch.closed = true
+		return nil
+	}
+	opaqueMethods["cancelctx.Done"] = func(p *Path, ov OpaqueV, a []Value) Value { return ChanV{ch: ov.data.(*ChanObj)} }
+	opaqueMethods["cancelctx.Err"] = func(p *Path, ov OpaqueV, a []Value) Value {
+		if ov.data.(*ChanObj).closed {
+			return p.newError("context canceled", nil)
+		}
+		return IfaceV{}
+	}
+	opaqueMethods["cancelctx.Value"] = func(p *Path, ov OpaqueV, a []Value) Value { return IfaceV{} }
 	opaqueMethods["plainctx.Done"] = func(p *Path, ov OpaqueV, a []Value) Value { return ChanV{} }
 	opaqueMethods["plainctx.Err"] = func(p *Path, ov OpaqueV, a []Value) Value { return IfaceV{} }
 	opaqueMethods["plainctx.Value"] = func(p *Path, ov OpaqueV, a []Value) Value { return IfaceV{} }
